@@ -12,7 +12,7 @@ import Spydr.IR.Clone
 namespace Spydr.IR
 
 inductive CKind where
-  | library | definition | «instance» | port | cable | wire | pin
+  | netlist | library | definition | «instance» | port | cable | wire | pin
 deriving DecidableEq, Repr
 
 def optOps {α : Type} (o : Option α) (f : α → List Op) : List Op :=
@@ -34,6 +34,18 @@ def S.instInLib (s : S) (l j : OId) : Bool :=
   | some d => s.defLib d == some l
   | none => false
 
+/-- is definition `r` in a library of netlist `n`? -/
+def S.defInNl (s : S) (n r : OId) : Bool :=
+  match s.defLib r with
+  | some l => s.libNl l == some n
+  | none => false
+
+/-- is instance `j` part of netlist `n` (placed in one of its definitions, or its top instance)? -/
+def S.instInNl (s : S) (n j : OId) : Bool :=
+  (match s.instParent j with
+    | some d => s.defInNl n d
+    | none => false) || s.top n == some j
+
 /-- the calls confined to the twin heap (they mention twins only) -/
 def pruneInside (s : S) (off : OId) : CKind → OId → List Op
   | .pin, q => cutInner s off q ++ optOps (s.pinPort q) fun p => [.removePin (p + off) (q + off)]
@@ -47,6 +59,10 @@ def pruneInside (s : S) (off : OId) : CKind → OId → List Op
       -- "the references of the definition will be cleared"
       ((List.range off).filter (fun j => s.refs d j)).map (fun j => Op.setRef (j + off) none) ++
       optOps (s.defLib d) fun l => [.removeDefinition (l + off) (d + off)]
+  | .netlist, n =>
+      -- instances that are not part of the netlist but reference into it do not reference the clone
+      (s.libs n).flatMap (fun l => (s.defs l).flatMap (fun d =>
+        ((List.range off).filter (fun j => s.refs d j && !s.instInNl n j)).map (fun j => Op.setRef (j + off) none)))
   | .library, l =>
       -- instances outside the library that reference into it do not reference the clone
       (s.defs l).flatMap (fun d => ((List.range off).filter (fun j => s.refs d j && !s.instInLib l j)).map
@@ -59,6 +75,12 @@ def pruneCross (s : S) (off : OId) : CKind → OId → List Op
   | .definition, d => (s.children d).flatMap fun c => optOps (s.instRef c) fun r => [.setRef (c + off) (some r)]
   | .library, l => (s.defs l).flatMap fun d => (s.children d).flatMap fun c =>
       optOps (s.instRef c) fun r => if s.defLib r == some l then [] else [.setRef (c + off) (some r)]
+  | .netlist, n =>
+      -- instances of the netlist (children and a standalone top instance) whose definition lies outside it
+      ((s.libs n).flatMap fun l => (s.defs l).flatMap fun d => (s.children d).flatMap fun c =>
+        optOps (s.instRef c) fun r => if s.defInNl n r then [] else [.setRef (c + off) (some r)]) ++
+      (optOps (s.top n) fun t => optOps (s.instRef t) fun r =>
+        if s.defInNl n r || (s.instParent t).isSome then [] else [.setRef (t + off) (some r)])
   | _, _ => []
 
 def pruneOps (s : S) (off : OId) (k : CKind) (x : OId) : List Op := pruneInside s off k x ++ pruneCross s off k x
